@@ -290,6 +290,15 @@ def gen_enc_inputs(args) -> dict:
         given = i % 3 == 1
         if i % 3 == 0 and i // 3 < len(bnd):
             p, recs = bnd[i // 3]
+        if i in (4, 10):
+            # a batch above 64 KiB whose encoding ends in zero bytes (empty value, no headers): a reader that
+            # fills a pre-zeroed buffer must still notice a cut inside that tail
+            big = bytes([i]) + b"\x61" * (70000 + i)
+            p = {"producer_id": aint(7), "producer_epoch": aint(1), "ple": aint(0), "base_seq": aint(0), "attributes": aint(0)}
+            recs = [{"attrs": aint(0), "ts": aint(10**12), "offset": aint(5), "key": _ab(b"k"), "value": _ab(big), "headers": []},
+                    {"attrs": aint(0), "ts": aint(10**12), "offset": aint(6), "key": _ab(None) if i == 4 else _ab(b""),
+                     "value": _ab(b""), "headers": []}]
+            given = False
         if given:
             p, recs = given_header(r, p, recs)
         cases.append({"id": f"e{i}", "mode": "enc", "given": given, "p": p, "recs": recs})
